@@ -187,8 +187,127 @@ func vh_C04_return() {
 	vAssert("C04.return.simultaneous", ok)
 }
 
-var vhRegistry = map[string]func(){"vh_C04_assign": vh_C04_assign, "vh_C04_return": vh_C04_return}
+// Slice expressions s[lo:hi], s[lo:], s[:hi], s[:], s[lo:hi:max], s[:hi:max]
+// through the real slice / slice0 generators, on a slice of length 3 and
+// capacity 5 with any in-range indices: the result has Go's length and
+// capacity and shares the backing array (a write through it is visible in s).
+var vhSliceForm = 0 // 0 s[lo:], 1 s[lo:hi], 2 s[lo:hi:max], 3 s[:], 4 s[:hi], 5 s[:hi:max]
 
-var vhIntVars = map[string]*int{"vhNAssign": &vhNAssign, "vhDefine": &vhDefine, "vhSlotArr": &vhSlotArr, "vhNRet": &vhNRet}
+func vh_C04_slice() {
+	vhResetClock()
+	vhStopAt = -1
+	i := vhNewInterp()
+	intT := &itype{cat: intT, rtype: vTypeOfKind(int(reflect.Int))}
+	sT := &itype{cat: sliceT, val: intT, rtype: reflect.TypeOf([]int{})}
+	backing := make([]int, 3, 5)
+	backing[0], backing[1], backing[2] = 10, 11, 12
+	f := newFrame(i.frame, 5, i.runid())
+	f.data[0] = reflect.ValueOf(backing)
+	idx := func(label string, slot int) (int, *node) {
+		v := vConcretizeInt(vNondetInt(label), 0, 5)
+		f.data[slot] = reflect.New(intT.rtype).Elem()
+		f.data[slot].SetInt(int64(v))
+		return v, &node{interp: i, kind: identExpr, findex: slot, typ: intT}
+	}
+	src := &node{interp: i, kind: identExpr, findex: 0, typ: sT}
+	n := &node{interp: i, kind: sliceExpr, findex: 4, typ: sT}
+	lo, hi, max := 0, 3, 5
+	var want []int
+	switch vhSliceForm {
+	case 0:
+		var c *node
+		lo, c = idx("lo", 1)
+		vAssume(lo <= 3)
+		n.child = []*node{src, c}
+		slice(n)
+		want = backing[lo:]
+	case 1:
+		var c1, c2 *node
+		lo, c1 = idx("lo", 1)
+		hi, c2 = idx("hi", 2)
+		vAssume(lo <= hi)
+		n.child = []*node{src, c1, c2}
+		slice(n)
+		want = backing[lo:hi]
+	case 2:
+		var c1, c2, c3 *node
+		lo, c1 = idx("lo", 1)
+		hi, c2 = idx("hi", 2)
+		max, c3 = idx("max", 3)
+		vAssume(lo <= hi && hi <= max)
+		n.child = []*node{src, c1, c2, c3}
+		slice(n)
+		want = backing[lo:hi:max]
+	case 3:
+		n.child = []*node{src}
+		slice0(n)
+		want = backing[:]
+	case 4:
+		var c *node
+		hi, c = idx("hi", 2)
+		n.child = []*node{src, c}
+		slice0(n)
+		want = backing[:hi]
+	default:
+		var c2, c3 *node
+		hi, c2 = idx("hi", 2)
+		max, c3 = idx("max", 3)
+		vAssume(hi <= max)
+		n.child = []*node{src, c2, c3}
+		slice0(n)
+		want = backing[:hi:max]
+	}
+	vReach("C04.slice")
+	n.exec(f)
+	got := f.data[4]
+	vAssert("C04.slice.len-cap", got.Kind() == reflect.Slice && got.Len() == len(want) && got.Cap() == cap(want))
+	if len(want) > 0 && got.Kind() == reflect.Slice && got.Len() > 0 {
+		got.Index(0).SetInt(77)
+		vAssert("C04.slice.shares-backing", want[0] == 77 && backing[:5][lo] == 77)
+	}
+	// growth: appending within the capacity of the result must not reach beyond it
+	if cap(want) > len(want) && got.Kind() == reflect.Slice {
+		vAssert("C04.slice.capacity-bounds-append", got.Cap() == cap(want))
+	}
+}
+
+// A method with a value receiver reached through a pointer (p.m used as a
+// function value): the receiver the body works on is a copy of *p. Real code:
+// genFunctionWrapper and the function reflect.MakeFunc gets from it. The body
+// reads its receiver, then overwrites it.
+func vh_C04_recvcopy() {
+	vhResetClock()
+	vhStopAt = -1
+	i := vhNewInterp()
+	intT := &itype{cat: intT, rtype: vTypeOfKind(int(reflect.Int))}
+	var seen int64
+	body := &node{interp: i}
+	body.start = body
+	body.exec = func(f *frame) bltn {
+		seen = f.data[0].Int()
+		f.data[0].SetInt(99999)
+		vhSteps++
+		return nil
+	}
+	blk := &node{interp: i, start: body}
+	def := &node{interp: i, kind: funcDecl, typ: &itype{cat: funcT, rtype: reflect.TypeOf(func() {})}, types: []reflect.Type{intT.rtype}}
+	def.child = []*node{{interp: i}, {interp: i, ident: "m"}, {interp: i}, blk}
+	def.val = def
+	x := vNondetInt("x")
+	vAssume(x > -1000 && x < 1000)
+	px := &node{interp: i, kind: identExpr, findex: 0, typ: &itype{cat: ptrT, val: intT, rtype: reflect.TypeOf((*int)(nil))}}
+	use := &node{interp: i, kind: selectorExpr, findex: notInFrame, val: def, typ: def.typ, recv: &receiver{node: px}}
+	f := newFrame(i.frame, 1, i.runid())
+	f.data[0] = reflect.ValueOf(&x)
+	w := genFunctionWrapper(use)(f)
+	vReach("C04.recvcopy")
+	w.Call(nil)
+	vAssert("C04.recvcopy.body-sees-value", vhSteps == 1 && seen == int64(x))
+	vAssert("C04.recvcopy.original-untouched", x != 99999)
+}
+
+var vhRegistry = map[string]func(){"vh_C04_recvcopy": vh_C04_recvcopy, "vh_C04_slice": vh_C04_slice, "vh_C04_assign": vh_C04_assign, "vh_C04_return": vh_C04_return}
+
+var vhIntVars = map[string]*int{"vhNAssign": &vhNAssign, "vhDefine": &vhDefine, "vhSlotArr": &vhSlotArr, "vhNRet": &vhNRet, "vhSliceForm": &vhSliceForm}
 
 var vhScenarios = map[string]func(map[string]string) bool{}
